@@ -113,3 +113,21 @@ contract('nfc.tag.tt3_sony:FelicaLite.NDEF._read_attribute_data', 'C16',
                                 commands=0, is_authenticated=Bool()))),
          name='C16/felica-lite._read_attribute_data',
          ensures=[('post.shape', 'result is None or result["nbr"] >= 0')], raises={})
+
+# ---------------------------------------------------------------- sequences on one tag object
+# What an operation leaves behind must not break the next one: after a READ that was answered with NAK the tag
+# is re-activated; if it is gone by then the frontend has no target any more (exchange() returns None), and every
+# further operation on the tag object must still end as documented (Type2TagCommandError, False) - whatever the
+# first READ met.
+for _w, _nm in ((0, 'read'), (1, 'is_present'), (2, 'write')):
+    contract('drivers.c16:t2_read_then', 'C16',
+             dict(tag=Obj('nfc.tag.tt2:Type2Tag', _current_sector=0,
+                          _clf=Obj('models.clf_models:ExchangeClf', _partial=False, sent=Fixed([]), outcomes=Fixed([]),
+                                   answers=Fixed([]), maxkind=1),
+                          _target=Obj('nfc.clf:RemoteTarget', _partial=False, _brty_send='106A', _brty_recv='106A',
+                                      sdd_res=Bytes(4, 10, mutable=True), sel_res=Bytes(1, 1, mutable=True),
+                                      sens_res=Bytes(2, 2, mutable=True))),
+                  page1=Int(0, 255), page2=Int(0, 255), what=Const(_w)),
+             name='C16/tt2.read-then-%s' % _nm, max_paths=20000,
+             note='failures of an exchange restricted to timeouts here (every kind is covered per operation above)',
+             raises={'nfc.tag.tt2:Type2TagCommandError': []})
